@@ -429,7 +429,9 @@ pub fn etag_variants() -> Vec<Option<Tag>> {
     ]
 }
 pub fn mtime_variants() -> Vec<Option<u64>> {
-    vec![None, Some(T0 * 1_000_000_000), Some(T0 * 1_000_000_000 + 500_000_000)]
+    // whole second, mid-second, and 1 ns before the next second (where a float or rounding
+    // truncation would land on the wrong second)
+    vec![None, Some(T0 * 1_000_000_000), Some(T0 * 1_000_000_000 + 500_000_000), Some(T0 * 1_000_000_000 + 999_999_999)]
 }
 pub fn ehdr_sets() -> Vec<Vec<(String, Vec<u8>)>> {
     vec![
@@ -558,7 +560,32 @@ fn rand_tag_list(rng: &mut Rng, etag: &Option<Tag>) -> TagList {
     TagList::List(l)
 }
 
-const MALFORMED_LISTS: [&str; 8] = ["\"foo\", bar", "\"unterminated", "W/", "abc", "\"a\" \"b\"", "\"a\",, \"b\"", " \"a\"", "\"a\";"];
+const MALFORMED_LISTS: [&str; 20] = [
+    "\"foo\", bar", "\"unterminated", "W/", "abc", "\"a\" \"b\"", "\"a\",, \"b\"", " \"a\"", "\"a\";",
+    "\"abc\" ", "\"abc\"\t", "\"xyz\", W/\"abc\" \t ", "\"abc\" , \"xyz\"", "\"abc\" ,\"xyz\"", "\"abc\",", "\"abc\", ", ",\"abc\"", " ", "", "*, \"abc\"", "\"abc\", *",
+];
+/// a grammatical list with one or two byte-level edits (anywhere, both ends included)
+fn mutate_list(rng: &mut Rng, l: &TagList) -> Vec<u8> {
+    let mut b = l.render();
+    for _ in 0..rng.range(1, 3) {
+        match rng.below(4) {
+            0 if !b.is_empty() => {
+                let i = rng.below(b.len() as u64) as usize;
+                b.remove(i);
+            }
+            1 if !b.is_empty() => {
+                let i = rng.below(b.len() as u64) as usize;
+                b[i] = *rng.pick(b"\", \tW/*a");
+            }
+            2 => {
+                let i = rng.below(b.len() as u64 + 1) as usize;
+                b.insert(i, *rng.pick(b"\", \tW/*a\xe9"));
+            }
+            _ => b.push(*rng.pick(b" \t,")),
+        }
+    }
+    b
+}
 const MALFORMED_DATES: [&str; 6] = ["yesterday", "", "Sun, 06 Nov 1994 08:49:37", "1994-11-06", "Sun, 06 Nov 1994 08:49:37 GMT ", "0"];
 
 /// conditional-header mix used by several generators; returns headers plus (im, inm) ASTs when grammatical
@@ -570,6 +597,9 @@ fn rand_conditionals(rng: &mut Rng, etag: &Option<Tag>, mtime: Option<u64>, c: &
         }
         if malformed_ok && rng.chance(1, 10) {
             c.push((name.into(), rng.pick(&MALFORMED_LISTS).as_bytes().to_vec()));
+        } else if malformed_ok && rng.chance(1, 8) {
+            let l = rand_tag_list(rng, etag);
+            c.push((name.into(), mutate_list(rng, &l)));
         } else {
             let l = rand_tag_list(rng, etag);
             c.push((name.into(), l.render()));
